@@ -386,6 +386,55 @@ REG['Doc25'] = Doc25
 """, {"Doc25": lambda ch, u: (lambda n: _b(n) + b"".join(u.bytes(1 + ch.draw("len", 3)) + [b"\n", b"\r\n"][ch.draw("eol", 2)] for _ in range(n)) + ((u.bytes(2) + [b";", b","][ch.draw("delim", 2)]) if n else b""))(ch.draw("n", 3)) + _b(u.byte())})
 
 
+# 26  mutable defaults at depth two: the classes that own an optional default object / a default list are
+#     themselves cloned as prototypes of a Ref (and of a repeated Ref) of an outer class; one feature per
+#     class, so that a shortcut taken for "simple" classes meets each feature alone
+def _opt26(ch, u):
+    f = ch.draw("flag", 2)
+    return _b(f) + (_b(u.byte()) if f else b"")
+
+
+def _lst26(ch, u):
+    f = ch.draw("count", 3)
+    return _b(f) + bytes(u.byte() for _ in range(f)) + u.bytes(2)
+
+
+_SRC26 = """
+class In26(Packet):
+    __bisturi__ = OPT
+    v = Int(1)
+
+class Opt26(Packet):
+    __bisturi__ = OPT
+    flag = Int(1)
+    extra = Ref(In26).when(flag, default=In26(v=5))
+
+class Lst26(Packet):
+    __bisturi__ = OPT
+    count = Int(1)
+    lst = Ref(In26).repeated(count, default=[In26(v=1), In26(v=2)])
+    nums = Int(1).repeated(2, default=[3, 4])
+
+class Top26(Packet):
+    __bisturi__ = OPT
+    id = Int(1)
+    opt = Ref(Opt26)
+    opt1 = Ref(Opt26(flag=1))
+    lst = Ref(Lst26)
+    many = Ref(Opt26).repeated(1, default=[Opt26()])
+REG['In26'] = In26
+REG['Opt26'] = Opt26
+REG['Lst26'] = Lst26
+REG['Top26'] = Top26
+"""
+decl("deepdefaults", _SRC26, {"Top26": lambda ch, u: _b(u.byte()) + _opt26(ch, u) + _opt26(ch, u) + _lst26(ch, u) + _opt26(ch, u),
+                              "Opt26": _opt26, "Lst26": _lst26})
+
+# 27  the same inside a function (deepcopy-based prototypes)
+decl("deepdefaultsfunc", "def make27():\n" + "".join("    " + l + "\n" if l else "\n" for l in _SRC26.replace("26", "27").split("\n")) + "make27()\n",
+     {"Top27": lambda ch, u: _b(u.byte()) + _opt26(ch, u) + _opt26(ch, u) + _lst26(ch, u) + _opt26(ch, u)}, func=True)
+
+
 BY_NAME = {d["name"]: d for d in POOL}
 
 HEADER = """from bisturi.packet import Packet
